@@ -36,9 +36,18 @@ CLAIMS["C01"] = dict(
          "C01_no_lost_wake_group (FcProps/C01g.lean): the same monitor for FutureGroup and StreamGroup, plain and keyed, both "
          "waker strategies, over every history of insert/remove/reserve/extend/poll/fire/drop with fresh members of the right "
          "kind (kernel invariants re-proved for a slot -> member map: exact ready count across resize/insert, bits and owed "
-         "wake-ups of current members, stale wakers of removed members only touch vacant or re-armed slots). One level of "
-         "nesting is exercised by the harness only.",
-    note=TB + " Not by theorem: one level of nesting (composition of two model instances).",
+         "wake-ups of current members, stale wakers of removed members only touch vacant or re-armed slots). Theorem C01_nest "
+         "(FcProps/C01nest.lean): one level of nesting - the lock-step composition (Fc/Nest.lean) of an outer instance with "
+         "inner instances as children, any nesting pattern over the concurrent and sequential families, all leaf scripts and "
+         "histories, both strategies: at every boundary while the nest is Pending, an owed wake-up of a direct child or of a "
+         "leaf of an inner instance that is itself waiting implies that the TASK has been woken (the wake-up travelled "
+         "through both levels); the harness runs real nests (outer join/race/merge/chain/zip over boxed children, inner "
+         "join/race/try_join/merge/chain/zip) and compares them with the lock-step model instance by instance. Theorem "
+         "C01_join_resolves (FcProps/C01live.lean): the liveness consequence for join - under a wake-only executor with a "
+         "fresh waker per poll and a benign environment (Fc/Exec.lean), a join of well-behaved futures resolves to the "
+         "positional values within 3*steps+1 rounds, both models and strategies (a 2*steps+2 bound is refuted in the file); "
+         "for the other families the harness's fair wake-only executor (profile drain) must never get stuck (monitor LV).",
+    note=TB + " Liveness by theorem for join only; for the other families by the drain runs on the real code.",
     design_ref="DESIGN.md §7 C01, Appendix A")
 
 CLAIMS["C20"] = dict(
@@ -302,7 +311,9 @@ CLAIMS["C15"] = dict(
          "collect (Vec and Ok(Vec)) resolves only when every taken item went through every stage once and the source was "
          "drained as far as the adapters allow (it ended or a take is full - hence exactly min(n, len) items), and the "
          "collected list is a permutation of one entry per taken item with its enumerate indices; for_each/try_for_each Ok "
-         "resolve only when drained. Check as for C13; the corpus replays the take(0) cases of the repaired defect D2.",
+         "resolve only when drained. Check as for C13, with Vec::into_co_stream() as the source in a quarter of the cases (its "
+         "polls are not observable and are reconstructed by the driver: the source is always ready, so an item is taken "
+         "whenever drive is at the head of its loop); the corpus replays the take(0) cases of the repaired defect D2.",
     note=CO_TB + " take(0) relies on the fix: commit recorded in known_findings.json (D2).",
     design_ref="DESIGN.md §7 C15, §3.5, §9 D2",
     technique="Lean 4 theorem over all traces of an operational model (acceptor) + trace validation of the real code against it")
